@@ -148,6 +148,51 @@ fn bad_len(ch: &mut Chooser, b: usize) -> usize {
     }
 }
 
+/// A legal but unusual iterator over `items`: its size_hint is honest but loose (lower bound below and upper bound
+/// above the real number of remaining items, or no upper bound), and - if `extra` is not empty - it is not fused: after
+/// its first `None` it yields the `extra` items when polled again. The sequence it *is* ends at the first `None`.
+struct Odd<T: Clone> {
+    items: std::vec::IntoIter<T>,
+    slack_lo: usize,
+    slack_hi: Option<usize>,
+    ended: bool,
+    extra: std::vec::IntoIter<T>,
+    polled_after_end: std::rc::Rc<std::cell::Cell<u32>>,
+}
+
+impl<T: Clone> Odd<T> {
+    fn new(items: Vec<T>, extra: Vec<T>, hint_seed: u64, polled_after_end: std::rc::Rc<std::cell::Cell<u32>>) -> Self {
+        let slack_lo = (hint_seed % 5) as usize;
+        let slack_hi = match (hint_seed >> 8) % 6 {
+            5 => None,
+            v => Some(v as usize),
+        };
+        Self { items: items.into_iter(), slack_lo, slack_hi, ended: false, extra: extra.into_iter(), polled_after_end }
+    }
+}
+
+impl<T: Clone> Iterator for Odd<T> {
+    type Item = T;
+    fn next(&mut self) -> Option<T> {
+        if self.ended {
+            self.polled_after_end.set(self.polled_after_end.get() + 1);
+            return self.extra.next();
+        }
+        let v = self.items.next();
+        if v.is_none() {
+            self.ended = true;
+        }
+        v
+    }
+    fn size_hint(&self) -> (usize, Option<usize>) {
+        if self.ended {
+            return (0, None);
+        }
+        let n = self.items.len();
+        (n.saturating_sub(self.slack_lo), self.slack_hi.map(|h| n + h))
+    }
+}
+
 pub fn run_oneshot(ch: &mut Chooser, ctx: &mut Ctx) {
     let n_ops = 2 + ch.pick_usize("ops", 10);
     ev!(ctx, "one-shot history: {n_ops} calls");
@@ -185,10 +230,18 @@ fn oneshot_encode(ch: &mut Chooser, ctx: &mut Ctx, op_no: usize) {
     let adm = encode_adm(k, r, &lens);
     ctx.distinct(&[0x05E, u64::from(adm.is_empty()), n.cmp(&k) as u64, (b % 64 != 0) as u64, adm.first().map_or(0, err_code)]);
 
-    let iter_kind = ch.pick("os.enc.iterkind", 5);
-    ctx.count(["oneshot.iter_exact", "oneshot.iter_filter", "oneshot.iter_unsized", "oneshot.iter_owned", "oneshot.iter_reentrant"][iter_kind as usize]);
+    let iter_kind = ch.pick("os.enc.iterkind", 7);
+    ctx.count(["oneshot.iter_exact", "oneshot.iter_filter", "oneshot.iter_unsized", "oneshot.iter_owned", "oneshot.iter_reentrant", "oneshot.iter_loose_hint", "oneshot.iter_not_fused"][iter_kind as usize]);
     let nested_failures = std::cell::Cell::new(0u32);
+    let hint_seed = ch.seed64("os.enc.hint");
+    let polled = std::rc::Rc::new(std::cell::Cell::new(0u32));
     let got = ctx.guarded(false, || match iter_kind {
+        5 => reed_solomon_simd::encode(k, r, Odd::new(items.iter().collect::<Vec<_>>(), Vec::new(), hint_seed, polled.clone())),
+        6 => {
+            // not fused: polled again after its first None it would hand out two more (well-formed) shards
+            let extra_items: Vec<Vec<u8>> = (0..2).map(|i| gen_shard(seed ^ 0xE, 0, 1000 + i, b)).collect();
+            reed_solomon_simd::encode(k, r, Odd::new(items.clone(), extra_items, hint_seed, polled.clone()))
+        }
         0 => reed_solomon_simd::encode(k, r, &items),
         1 => reed_solomon_simd::encode(k, r, items.iter().filter(|_| true)),
         2 => {
@@ -250,11 +303,11 @@ fn oneshot_encode(ch: &mut Chooser, ctx: &mut Ctx, op_no: usize) {
         (Ok(s), Ok(g)) => {
             ctx.count("c10.oneshot_encode_compared");
             if s != g {
-                ctx.viol(&["C10"], "oneshot-equals-streaming", "oneshot/encode/bytes".into(), format!("encode({k}, {r}, ..) returns other bytes than the streaming encoder"), false);
+                ctx.viol(&["C10", "C09"], "oneshot-equals-streaming", "oneshot/encode/bytes".into(), format!("encode({k}, {r}, ..) returns other bytes than the streaming encoder"), false);
             }
         }
         (Ok(_), Err(e)) => {
-            ctx.viol(&["C10", "C06"], "oneshot-equals-streaming", format!("oneshot/encode/{}", err_name(e)), format!("encode({k}, {r}, {n} shards) returned Err({e:?}) where the streaming sequence succeeds"), false);
+            ctx.viol(&["C10", "C09", "C06"], "oneshot-equals-streaming", format!("oneshot/encode/{}", err_name(e)), format!("encode({k}, {r}, {n} shards) returned Err({e:?}) where the streaming sequence succeeds"), false);
         }
         (Err(se), Ok(_)) => {
             ctx.viol(&["C10", "C06"], "oneshot-equals-streaming", "oneshot/encode/ok-where-streaming-fails".into(), format!("encode({k}, {r}, {n} shards, lens {:?}) returned Ok where the streaming sequence fails with {se:?}", &lens[..lens.len().min(8)]), false);
@@ -379,10 +432,17 @@ fn oneshot_decode(ch: &mut Chooser, ctx: &mut Ctx, op_no: usize) {
 
     // the arguments are `IntoIterator`s: the same items are handed over through iterators of different kinds
     // (exact size hint, no lower bound, unknown upper bound, owned items); the outcome must not depend on that
-    let iter_kind = ch.pick("os.dec.iterkind", 5);
-    ctx.count(["oneshot.iter_exact", "oneshot.iter_filter", "oneshot.iter_unsized", "oneshot.iter_owned", "oneshot.iter_reentrant"][iter_kind as usize]);
+    let iter_kind = ch.pick("os.dec.iterkind", 7);
+    ctx.count(["oneshot.iter_exact", "oneshot.iter_filter", "oneshot.iter_unsized", "oneshot.iter_owned", "oneshot.iter_reentrant", "oneshot.iter_loose_hint", "oneshot.iter_not_fused"][iter_kind as usize]);
     let nested_failures = std::cell::Cell::new(0u32);
+    let hint_seed = ch.seed64("os.dec.hint");
+    let polled = std::rc::Rc::new(std::cell::Cell::new(0u32));
+    // what a non-fused iterator would hand out after its first None: shards of the stripe that were NOT given
+    let extra_o: Vec<(usize, Vec<u8>)> = (0..sk).filter(|i| !orig.iter().any(|(j, _)| j == i)).take(2).map(|i| (i, stripe.originals[i].clone())).collect();
+    let extra_r: Vec<(usize, Vec<u8>)> = (0..sr).filter(|i| !rec.iter().any(|(j, _)| j == i)).take(2).map(|i| (i, stripe.recovery[i].clone())).collect();
     let got = ctx.guarded(false, || match iter_kind {
+        5 => reed_solomon_simd::decode(k, r, Odd::new(orig.clone(), Vec::new(), hint_seed, polled.clone()), Odd::new(rec.clone(), Vec::new(), hint_seed >> 16, polled.clone())),
+        6 => reed_solomon_simd::decode(k, r, Odd::new(orig.clone(), extra_o.clone(), hint_seed, polled.clone()), Odd::new(rec.clone(), extra_r.clone(), hint_seed >> 16, polled.clone())),
         0 => reed_solomon_simd::decode(k, r, orig.iter().map(|(i, s)| (*i, &s[..])), rec.iter().map(|(i, s)| (*i, &s[..]))),
         1 => reed_solomon_simd::decode(k, r, orig.iter().filter(|_| true).map(|(i, s)| (*i, &s[..])), rec.iter().filter(|_| true).map(|(i, s)| (*i, &s[..]))),
         2 => {
@@ -460,11 +520,11 @@ fn oneshot_decode(ch: &mut Chooser, ctx: &mut Ctx, op_no: usize) {
         (Ok(s), Ok(g)) => {
             ctx.count("c10.oneshot_decode_compared");
             if s != g {
-                ctx.viol(&["C10"], "oneshot-equals-streaming", "oneshot/decode/bytes".into(), format!("decode({k}, {r}, ..) restores other shards than the streaming decoder"), false);
+                ctx.viol(&["C10", "C09"], "oneshot-equals-streaming", "oneshot/decode/bytes".into(), format!("decode({k}, {r}, ..) restores other shards than the streaming decoder"), false);
             }
         }
         (Ok(_), Err(e)) => {
-            ctx.viol(&["C10", "C06"], "oneshot-equals-streaming", format!("oneshot/decode/{}", err_name(e)), format!("decode({k}, {r}, originals {o_meta:?}, recovery {r_meta:?}) returned Err({e:?}) where the streaming sequence succeeds"), false);
+            ctx.viol(&["C10", "C09", "C06"], "oneshot-equals-streaming", format!("oneshot/decode/{}", err_name(e)), format!("decode({k}, {r}, originals {o_meta:?}, recovery {r_meta:?}) returned Err({e:?}) where the streaming sequence succeeds"), false);
         }
         (Err(se), Ok(g)) => {
             ctx.viol(&["C10"], "oneshot-equals-streaming", format!("oneshot/decode/ok-where-streaming-fails/{}", if rec.is_empty() { "no-recovery-given" } else { "with-recovery" }), format!("decode({k}, {r}, originals (index,len) {o_meta:?}, recovery {r_meta:?}) returned Ok({} restored) where the streaming sequence fails with {se:?}", g.len()), false);
